@@ -28,6 +28,10 @@ def run(ck, ctx):
                      "sequence of WalEntry or ReplicationDelta, no keyed collection of them (stamps come from independent per-shard clocks "
                      "and are neither unique nor monotone inside a file, so any stamp-keyed order differs from the append order); only the "
                      "list of file *names* is sorted (R10.3)")
+    ck.rule("R10.9", "the reader decodes the image it read: between WalFileReader::read_all and the decode loop no function of WalReader "
+                     "shortens or edits the byte image (no truncate/drain/retain/split_off/resize/clear/pop/remove on it, no trimming of "
+                     "'padding'); what ends a file's recovery is decided by WalEntry::decode alone (R10.1) - a heuristic that cuts a tail "
+                     "it takes for fill cuts into an intact entry whose payload happens to end that way")
     from . import bounds as _bounds
     ck.rule("R10.7", _bounds.TEXT % "the WAL, segment and checkpoint decoders")
     ck.nd("bit-identity of payloads is delegated to CRC32 (detection probability not analysed)")
@@ -42,6 +46,7 @@ def run(ck, ctx):
         file_loop_rule(ck, prog, cfg, "R10.3")
         r106(ck, prog, cfg, "R10.6")
         _r108(ck, prog, cfg)
+        r109(ck, prog, cfg, "R10.9")
         _bounds.rule(ck, prog, cfg, "R10.7", ("src/streaming/wal.rs",), "a WAL file torn at that offset", floor=6, tag=_tag(cfg))
 
 
@@ -462,3 +467,26 @@ def _r108(ck, prog, cfg):
     ck.floor("R10.8:functions-scanned" + _tag(cfg), scanned, 20)
     if n == 0:
         ck.ok("R10.8", "wal.rs:no-reordering-of-entries" + _tag(cfg), "%d functions scanned" % scanned)
+
+
+def r109(ck, prog, cfg, rid):
+    EDIT = re.compile(r"Vec::<u8>::(truncate|drain|retain|retain_mut|split_off|resize|resize_with|clear|pop|remove|swap_remove|insert|dedup\w*|set_len|splice)(::<.*>)?$|"
+                      r"<impl \[u8\]>::(trim_ascii\w*|strip_suffix|strip_prefix|rsplit\w*|fill|reverse|copy_within|sort\w*)(::<.*>)?$")
+    n = hits = 0
+    for f in prog.lib_fns():
+        if f.file != "src/streaming/wal.rs" or "::tests::" in f.id:
+            continue
+        if "WalReader" not in (f.d.get("impl_self") or "") and "WalReader" not in f.id:
+            continue
+        n += 1
+        for b, t in f.calls():
+            c = t.get("fnargs") or callee(t)
+            if EDIT.search(callee(t)) or EDIT.search(c):
+                hits += 1
+                ck.bad(rid, "%s:%s#%d%s" % (re.sub(r"\{closure#\d+\}", "{closure}", f.id.replace("streaming::wal::", "")), callee(t).rsplit("::", 1)[-1].split("<")[0], hits, _tag(cfg)),
+                       "the WAL reader edits the file image before decoding it (%s): entries are then judged on bytes that are not the bytes on "
+                       "disk - an intact last entry can be cut and dropped, and truncation computes a file's newest stamp without it"
+                       % callee(t)[-40:], f.where(t["ln"]))
+    ck.floor(rid + ":functions-scanned" + _tag(cfg), n, 3)
+    if hits == 0:
+        ck.ok(rid, "reader-decodes-image-as-read" + _tag(cfg), "%d WalReader functions scanned" % n)
